@@ -117,70 +117,92 @@ def _regroup(rules, by):
 
 
 class Ref:
-    """the reference model: an ordered list of rules, possibly in blocks"""
+    """the reference model: an ordered list of blocks.  A block is a single rule (an entry standing directly in
+    the ACL) or a group of rules built by group_by; a group carries a name and a number of its own (set by
+    resequence to the number of its last rule; a re-built group of the same name keeps it, a new one has 0)"""
 
     def __init__(self, lines, plat):
         self.plat = plat
-        self.blocks = [[_rule_of(l, plat)] for l in lines]      # ungrouped: one rule per block
-        self.block_seq = None                                  # sequence numbers of the blocks when grouped
+        self.blocks = [self._single(_rule_of(l, plat)) for l in lines]
         self.by = ""
 
-    def flat(self):
-        return [r for b in self.blocks for r in b]
+    @staticmethod
+    def _single(r):
+        return {"grp": False, "name": None, "seq": r[1], "rules": [r]}
 
-    def _set_flat(self, rules):
-        if self.by:
-            self.blocks = _regroup(rules, self.by)
-            self.block_seq = None
-        else:
-            self.blocks = [[r] for r in rules]
+    def flat(self):
+        return [r for b in self.blocks for r in b["rules"]]
+
+    def _regroup(self, rules, keep=True):
+        """what every assignment of items does to an ACL with group_by"""
+        if not self.by:
+            self.blocks = [self._single(r) for r in rules]
+            return
+        old = {b["name"]: b["seq"] for b in self.blocks if b["grp"]} if keep else {}
+        buckets, cur = {"": []}, ""
+        for r in rules:
+            if r[0] == "remark" and r[2].startswith(self.by):
+                cur = r[2]
+                if cur not in buckets:
+                    buckets[cur] = [r]
+                continue
+            buckets[cur].append(r)
+        self.blocks = [{"grp": True, "name": k, "seq": old.get(k, 0), "rules": v} for k, v in buckets.items() if v]
 
     def apply(self, op, norm=None):
         k = op[0]
         if k == "platform":
             if op[1] == "nxos":
-                self.blocks = [[x for r in b for x in _split_eq(r)] for b in self.blocks]
-                if not self.by:
-                    self.blocks = [[r] for b in self.blocks for r in b]
+                for b in self.blocks:
+                    b["rules"] = [x for r in b["rules"] for x in _split_eq(r)]
+                # the split entries are assigned back: loose entries are replaced one by one, a grouped ACL re-groups
+                if self.by:
+                    self._regroup(self.flat())
                 else:
-                    self._set_flat(self.flat())
+                    self.blocks = [self._single(r) for r in self.flat()]
             self.plat = op[1]
         elif k == "ungroup_ports":
-            self._set_flat([x for r in self.flat() for x in _split_eq(r)])
+            for b in self.blocks:
+                b["rules"] = [x for r in b["rules"] for x in _split_eq(r)]
+            if self.by:
+                self._regroup(self.flat())
+            else:
+                self.blocks = [self._single(r) for r in self.flat()]
         elif k in ("port_nr", "protocol_nr", "type_ext", "copy", "import_uuid"):
             if self.by:
-                self._set_flat(self.flat())
+                self._regroup(self.flat())
         elif k == "reparse":
             self.by = ""
-            self._set_flat(self.flat())
+            self._regroup(self.flat())
         elif k == "group":
             if op[1]:
                 self.by = op[1]
-                self._set_flat(self.flat())
+                self._regroup(self.flat())
         elif k == "ungroup":
             self.by = ""
-            self._set_flat(self.flat())
+            self._regroup(self.flat())
         elif k == "reverse":
             self.blocks.reverse()
         elif k == "pop":
             self.blocks.pop(op[1])
         elif k == "insert":
             # the new entry in the library's own normal spelling (parsing one line is C01's business)
-            self.blocks.insert(op[1], [_rule_of(norm(op[2]) if norm else op[2], self.plat)])
+            self.blocks.insert(op[1], self._single(_rule_of(norm(op[2]) if norm else op[2], self.plat)))
         elif k == "resequence":
             n, step = op[1], (op[2] if op[1] else 0)
-            out = []
             for bi, b in enumerate(self.blocks):
                 nb = []
-                for ri, r in enumerate(b):
+                for ri, r in enumerate(b["rules"]):
                     nb.append((r[0], n, r[2]))
-                    if not (bi == len(self.blocks) - 1 and ri == len(b) - 1):
+                    last_of_block = ri == len(b["rules"]) - 1
+                    if not last_of_block:
                         n += step
-                out.append(nb)
-            self.blocks = out
+                b["rules"] = nb
+                b["seq"] = n
+                if bi != len(self.blocks) - 1:
+                    n += step
         elif k == "sort":
-            key = (lambda b: b[-1][1]) if self.by else (lambda b: b[0][1])
-            self.blocks.sort(key=key)
+            self.blocks.sort(key=lambda b: b["seq"])
         elif k == "delete_shadow":
             rules = self.flat()
             aces = [(i, r) for i, r in enumerate(rules) if r[0] == "ace"]
@@ -189,10 +211,13 @@ class Ref:
                 for (j, bot) in aces[x + 1:]:
                     if _covers(top, bot):
                         drop.add(j)
-            if drop:
-                self._set_flat([r for i, r in enumerate(rules) if i not in drop])
+            if drop:        # the result is assembled in a copy that was ungrouped: its groups are new ones
+                self._regroup([r for i, r in enumerate(rules) if i not in drop], keep=False)
         else:
             raise KeyError(k)
+        for b in self.blocks:       # a single entry's number is its own
+            if not b["grp"]:
+                b["seq"] = b["rules"][0][1]
 
 
 def _impl_rules(a, plat):
